@@ -160,9 +160,43 @@ def run(ctx):
                         det = show(e)
                         if isinstance(amt, tuple) and amt[0] == "bin" and amt[1] == "Rem" and is_const(amt[3]) and amt[3][1] == 24 and not is_const(shl[0][2]):
                             upd_ok = True
+        fold_init0 = False
+        if not upd_ok:
+            # the same recurrence spelled bytes.iter().enumerate().fold(0, |c, (i, byte)| c ^ (byte << (i % 24))): the
+            # closure body is the loop body, the fold's initial value the accumulator's
+            from ..prov import derive as _derive, index_of as _index_of
+
+            cix0 = _index_of(cb)
+            for _bi, t_ in cb.calls():
+                if (t_.get("res") or "").split("::")[-1] != "fold" or len(t_["args"]) != 3:
+                    continue
+                k_ = cix0.resolve(t_["args"][2])
+                if not (k_[0] == "rv" and k_[1]["k"] == "agg" and k_[1].get("ak") == "closure"):
+                    continue
+                fb_ = prog.body(k_[1]["closure"])
+                if fb_ is None:
+                    continue
+                over_enum = "enumerate" in {c_.split("::")[-1] for c_ in _derive(cix0, t_["args"][0]).calls}
+                for q in Explorer(fb_).explore():
+                    if q.end != "return":
+                        continue
+                    e = N(q.env.local(0))
+                    if isinstance(e, tuple) and e[0] == "bin" and e[1] == "BitXor":
+                        parts = (e[2], e[3])
+                        shl = [x for x in parts if isinstance(x, tuple) and x[0] == "bin" and x[1] == "Shl"]
+                        acc = [x for x in parts if x == ("v", 2)]
+                        if shl and acc and over_enum:
+                            amt = shl[0][3]
+                            det = show(e)
+                            # closure parameters: 2 = accumulator, 3 = (position, &byte)
+                            pos_ok = isinstance(amt, tuple) and amt[0] == "bin" and amt[1] == "Rem" and is_const(amt[3]) and amt[3][1] == 24 and any(isinstance(t, tuple) and t[0] == "fld" and t[1] == ("v", 3) and t[2] in (0, "0") for t in walk(amt[2]))
+                            byte_ok = any(isinstance(t, tuple) and t[0] == "fld" and t[1] == ("v", 3) and t[2] in (1, "1") for t in walk(shl[0][2])) and not any(isinstance(t, tuple) and t[0] == "fld" and t[1] == ("v", 3) and t[2] in (0, "0") for t in walk(shl[0][2]))
+                            if pos_ok and byte_ok:
+                                upd_ok = True
+                                fold_init0 = const_int(t_["args"][1]) == 0 or cix0.resolve(t_["args"][1]) == ("const", 0)
         ctx.ob("CHK", "update", upd_ok, f"checksum update is {det or '?'}; must be c ^= (byte as u32) << (i % 24)", cb.file, cb.line, sample=True)
         # initial value 0 and result is the accumulator
-        init0 = False
+        init0 = fold_init0
         for _bi, _si, s in cb.stmts():
             if s["k"] == "assign" and s["rv"]["k"] == "use" and const_int(s["rv"]["a"]) == 0 and cb.locals[s["lhs"]["l"]]["ty"] == "u32" and cb.local_names().get(s["lhs"]["l"]):
                 init0 = True
@@ -180,7 +214,10 @@ def run(ctx):
         got_order = dict(slots)
         for pos, name in enumerate(SLOT_ORDER):
             ctx.ob("SLOTPOS", f"reference|{name}", got_order.get(name) == pos, f"GearSlotType::{name} = {got_order.get(name)}; its record is number {pos} of the 14 in the file", "src/gearsets.rs", None, sample=(name == "Earrings"))
-        t = Table(tb)
+        from ..table import Composer
+
+        comp_ = Composer(prog)
+        t = Table(tb, composer=comp_)
         if not t.is_table:
             ctx.fail_closed("SLOTPOS", "TryFrom<usize> for GearSlotType is not a loop-free decision table over its argument")
         else:
@@ -192,6 +229,18 @@ def run(ctx):
                     ctx.fail_closed("SLOTPOS", f"try_from({dv}): {e}")
                     continue
                 n_pos += 1
+                if isinstance(leaf, tuple) and leaf[0] == "call":
+                    # the table spelled as a search over a constant array of the variants: compose it
+                    try:
+                        av = comp_.absval(leaf, {("val", 1): dv, ("abs", 1): dv})
+                    except Undecided as e:
+                        ctx.fail_closed("SLOTPOS", f"try_from({dv}): {e}")
+                        continue
+                    if isinstance(av, tuple) and av and av[0] == "Ok" and isinstance(av[1], tuple) and av[1][0] == "enum":
+                        vn_ = next((n_ for n_, d_ in slots if d_ == av[1][1]), None)
+                        leaf = ("agg", "adt", "std::result::Result::Ok", (("agg", "adt", f"gearsets::GearSlotType::{vn_}", ()),))
+                    elif isinstance(av, tuple) and av and av[0] == "Err":
+                        leaf = ("agg", "adt", "std::result::Result::Err", ())
                 if name.startswith("<"):
                     ok = isinstance(leaf, tuple) and leaf[0] == "agg" and leaf[2].endswith("Result::Err")
                     ctx.ob("SLOTPOS", "out-of-range", ok, f"position {dv} (past the last slot) maps to {show(leaf)}; must be Err", tb.file, tb.line, trivial=True)
@@ -205,14 +254,15 @@ def run(ctx):
     else:
         from ..prov import derive, index_of
 
-        ix = index_of(wsb)
         ok = False
-        for _bi, t_ in wsb.calls():
-            if (t_.get("res") or "").endswith("IndexMut<I>>::index_mut") and len(t_["args"]) == 2:
+        # the store may sit in the loop of the function or in a closure handed to for_each
+        for wb_ in prog.deep_bodies("gearsets::convert_to_slots"):
+            ix = index_of(wb_)
+            for _bi, t_ in wb_.calls():
+                if not ((t_.get("res") or "").endswith("IndexMut<I>>::index_mut") and len(t_["args"]) == 2):
+                    continue
                 d_ = derive(ix, t_["args"][1])
                 # index = discriminant(key) as usize : no arithmetic, no table lookup
-                from ..mir import op_place as _opl
-
                 r = ix.resolve(t_["args"][1])
                 if r[0] == "cast":
                     inner = ix.resolve(r[1]["a"])
